@@ -5,6 +5,8 @@ import math
 import numpy as np
 from hypothesis import strategies as st
 
+from ..core import sampled_from  # noqa: E402
+
 from .. import build, meshgen
 from ..core import Failure
 
@@ -38,26 +40,26 @@ CALLS = ["grid_gdf", "grid_gdf", "grid_poly", "grid_line", "da_gdf", "da_gdf", "
 
 @st.composite
 def _proj(draw):
-    kind = draw(st.sampled_from(["none", "none", "robinson", "mollweide"]))
+    kind = draw(sampled_from(["none", "none", "robinson", "mollweide"]))
     if kind == "none":
         return ["none"]
-    return [kind, draw(st.sampled_from([0.0, 0.0, 180.0, -90.0, 60.0]))]
+    return [kind, draw(sampled_from([0.0, 0.0, 180.0, -90.0, 60.0]))]
 
 
 @st.composite
 def _step(draw):
-    call = draw(st.sampled_from(CALLS))
-    per = draw(st.sampled_from(PERIODIC))
+    call = draw(sampled_from(CALLS))
+    per = draw(sampled_from(PERIODIC))
     proj = draw(_proj())
     if per == "split":
         proj = ["none"]
     return {
         "call": call,
         "periodic": per,
-        "engine": draw(st.sampled_from(["spatialpandas", "geopandas"])),
+        "engine": draw(sampled_from(["spatialpandas", "geopandas"])),
         "proj": proj,
-        "cache": draw(st.sampled_from([True, True, False])),
-        "override": draw(st.sampled_from([False, False, True])),
+        "cache": draw(sampled_from([True, True, False])),
+        "override": draw(sampled_from([False, False, True])),
         "var": draw(st.integers(0, 1)),
     }
 
@@ -65,13 +67,13 @@ def _step(draw):
 @st.composite
 def _case(draw, tier):
     big = tier != "quick"
-    fam = draw(st.sampled_from(["hull", "latlon"]))
+    fam = draw(sampled_from(["hull", "latlon"]))
     if fam == "hull":
         mesh = draw(meshgen.hull_mesh(40, 70 if big else 55, partial=True, planted=False))
     else:
-        mesh = meshgen.latlon_mesh(draw(st.integers(11, 18)), draw(st.integers(5, 8)), draw(st.sampled_from([0.0, 7.5, 33.0, 180.0])), poles=False)
+        mesh = meshgen.latlon_mesh(draw(st.integers(11, 18)), draw(st.integers(5, 8)), draw(sampled_from([0.0, 7.5, 33.0, 180.0])), poles=False)
         mesh["family"] = "latlon-band"
-    return {"mesh": _planar_safe(mesh), "steps": draw(st.lists(_step(), min_size=1, max_size=6)), "radius": draw(st.sampled_from([None, None, None, 6371229.0]))}
+    return {"mesh": _planar_safe(mesh), "steps": draw(st.lists(_step(), min_size=1, max_size=6)), "radius": draw(sampled_from([None, None, None, 6371229.0]))}
 
 
 def _planar_safe(mesh):
